@@ -35,8 +35,10 @@ ID = "C14"
 LEVEL = "model_checking"
 RULE = (
     "E1: full cartesian product code family (real HMAC / colliding mod-3 subclass) x key configuration x period x "
-    "window x skew x last_counter (None,-1..top) x every time 0..T x submitted code (code of every counter 0..top, "
-    "an unassigned code, 14 malformed codes; sub-parts: int/bytes/decorated forms, float/datetime times); a case is "
+    "window x skew x last_counter (None,-1..top) x every time 0..T x submitted code (code of every counter 0..top; the "
+    "quick tier keeps the last_counter values within 2 and the counters within 3 of the window edges and of "
+    "last_counter, plus the extremes -1, 0, top; "
+    "an unassigned code, 15 malformed codes; sub-parts: int/bytes/decorated forms, float/datetime times); a case is "
     "non-trivial when TOTP.match really ran; distinct class = family|period|window|skew|phase of (time+skew) in the "
     "period|expected outcome|position of the deciding counter relative to window edges and last_counter|code form. "
     "E2: breadth-first search, state = (last_counter, accepted counters), every (time, code) event applied in "
@@ -420,18 +422,36 @@ def work(task):
         return case, want
 
     if part == "product":
-        lasts = [None] + list(range(-1, top + 1))
+        all_lasts = list(range(-1, top + 1))
+        near = task.get("near")  # quick tier: counters / last_counter values near the window, plus the two extremes
+        mal_n = len(malformed_codes(digits, codes[0]))
         for t in range(T + 1):
             good = codes[t // period]
-            subs = [("code", c) for c in distinct] + [("unassigned", free)] + malformed_codes(digits, good)
+            wlo = R.floordiv(t + skew - window, period)
+            hi = R.floordiv(t + skew + window, period)
+            if near is None:
+                lasts = [None] + all_lasts
+                cnts = range(top + 1)
+            else:
+                lasts = [None] + [x for x in all_lasts if x in (-1, 0, top) or wlo - near <= x <= hi + near]
+                cnts = None
+            mal = malformed_codes(digits, good)
             for last in lasts:
-                for label, code in subs:
+                if cnts is None:
+                    L = -1 if last is None else last
+                    sel = [c for c in range(top + 1) if c in (0, top) or wlo - near - 1 <= c <= hi + near + 1 or L - 1 <= c <= L + 1]
+                else:
+                    sel = cnts
+                if fam == "hmac":
+                    subs = [("code", codes[c]) for c in sel]
+                else:
+                    subs = [("code", c) for c in distinct]
+                for label, code in subs + [("unassigned", free)] + mal:
                     case, want = do(last, t, code, label)
                     if t == 17 and last == 3 and want[0] in (R.MATCH, R.USED):
                         acc.sample(case)
-        acc.axis("last_counter", "None")
-        for last in lasts[1:]:
-            acc.axis("last_counter", last)
+                acc.axis("last_counter", last)
+        assert mal_n == len(mal)
     elif part == "forms":
         for t in range(T + 1):
             e = t // period
@@ -480,7 +500,8 @@ def run(ctx):
                     for skew in skews:
                         for part in ("product", "forms"):
                             tasks.append({"part": part, "fam": fam, "key": key, "alg": alg, "digits": digits, "period": period,
-                                          "window": window, "skew": skew, "T": T if period < 30 else max(T, 100)})
+                                          "window": window, "skew": skew, "T": T if period < 30 else max(T, 100),
+                                          "near": 2 if ctx.quick else None})
     # heavy shards first (small periods have the most counters)
     def cost(t):
         top = max(t["T"] + t["skew"] + t["window"], t["T"]) // t["period"] + 2
